@@ -52,6 +52,9 @@ def regen_all():
             reports[name] = fn()
         except Exception as ex:  # fail closed: the caller sees the failure
             reports[name] = {"failed": ["%s: %r" % (name, ex)]}
+    for name, r in reports.items():
+        for msg in (r.get("failed") or [])[:6]:
+            print("[gen] translator %s (fail-closed, the generated file will not compile or lacks the table): %s" % (name, str(msg)[:400]), flush=True)
     lib.mkdir(lib.BUILD)
     with open(os.path.join(lib.BUILD, "gen_report.json"), "w") as f:
         json.dump(reports, f, indent=1, default=str)
